@@ -97,3 +97,48 @@ def check_unbounded_queues(eng, run, rule: str, module_filter, floor: int = 1) -
                 run.finding(rule, fn, c, f"`{ast.unparse(c)[:70]}` bounds a queue of received items: once it is full the producer's put_nowait() raises inside the event-loop callback (only logged) or the deque discards silently - the item yields neither a packet nor an error")
             run.ob(rule, f"{fn.short}:{nm}@{c.lineno - fn.node.lineno}:unbounded", ok)
     run.floor(f"{rule} queues of received items", n, floor)
+
+
+def check_fresh_receive_buffers(eng, run, rule: str, floor: int = 3) -> None:
+    """`create_deserializer_buffer()` hands out a buffer of its own on every call: each return is an allocation (`bytearray(n)`,
+    `memoryview(bytearray(n))`, ...) or the result of another serializer's `create_deserializer_buffer()` - never an object kept in
+    an attribute, a module-level name or a memoised helper.  One protocol object serves many connections; a cached buffer makes
+    them write into each other's partially received frames."""
+    from .buffers import through_local
+    n = 0
+    for fn in eng.db.all_functions():
+        if isinstance(fn.node, ast.Lambda) or fn.name != "create_deserializer_buffer" or fn.has_decorator("abstractmethod"):
+            continue
+        rets = [r for r in own_nodes(fn.node) if isinstance(r, ast.Return) and r.value is not None]
+        if not rets:
+            continue
+        n += 1
+        bad = []
+        for r in rets:
+            v = through_local(fn, r.value)
+            while isinstance(v, ast.NamedExpr):
+                v = v.value
+            fresh = False
+            if isinstance(v, ast.Call):
+                nm = (dotted(v.func) or "").split(".")[-1]
+                fresh = nm in ("bytearray", "memoryview", "array", "create_deserializer_buffer") or nm[:1].isupper()
+                for t in eng.typer.call_targets(fn, v):
+                    if hasattr(t, "node") and not isinstance(t, str) and _is_cached(t):
+                        fresh = False
+            # the local the value was read through may itself be (also) stored into / loaded from an attribute
+            if isinstance(r.value, ast.Name):
+                for st in own_nodes(fn.node):
+                    if isinstance(st, (ast.Assign, ast.AnnAssign, ast.NamedExpr)):
+                        tg = st.targets if isinstance(st, ast.Assign) else [st.target]
+                        names = [t for t in tg if isinstance(t, ast.Name) and t.id == r.value.id]
+                        attrs = [t for t in tg if isinstance(t, ast.Attribute)]
+                        val = st.value
+                        if names and (attrs or isinstance(val, ast.Attribute) or (isinstance(val, ast.NamedExpr) and isinstance(val.value, ast.Attribute))):
+                            fresh = False
+            if not fresh:
+                bad.append(r)
+        for r in bad[:1]:
+            run.finding(rule, fn, r, "create_deserializer_buffer() can return an object that outlives the call (kept in an attribute / cache) instead of a fresh buffer: every connection that uses this "
+                        "protocol object fills the same buffer, and partially received frames of one connection are overwritten by another's")
+        run.ob(rule, f"{fn.cls.name if fn.cls else fn.module.name}.create_deserializer_buffer:fresh-buffer-per-call", not bad, returns=len(rets))
+    run.floor(f"{rule} receive-buffer factories", n, floor)
